@@ -193,7 +193,7 @@ static void mt_advance(void) {
     for (int i = 0; i < 24; i++) { mtimer_t *t = &MT[i];
         if (!t->used || !t->armed || t->next > shim_now_ns) continue;
         if (t->oneshot) t->armed = 0; else t->next += (1 + (shim_now_ns - t->next) / t->period) * t->period;
-        if (t->src >= 0) MD[t->slot].src[t->src].fired = 1;
+        if (t->src >= 0) { if (MD[t->slot].ever_batched) MD[t->slot].src[t->src].fired++; else MD[t->slot].src[t->src].fired = 1; }      /* while batching holds events back, one event per expiry seen by a dispatch may accumulate */
         else if (t->src == -1) { MD[t->slot].batch_fired = 1; if (MD[t->slot].st == S_RUNNING && MD[t->slot].nmb) MD[t->slot].batch_due = nmsg; }
         else if (t->src == -3) tick_owed = 1;
     }
